@@ -218,6 +218,14 @@ pub fn children<T: AstNode + Debug>(
 		out.push(current_child);
 	}
 
+	// A single-line comment runs to the end of its line: whatever follows the item has to go to the
+	// next line, otherwise it becomes a part of the comment.
+	for child in &mut out {
+		if child.has_inline_line_comment() {
+			child.triggers_multiline = true;
+		}
+	}
+
 	(out, ending_comments)
 }
 
@@ -244,6 +252,20 @@ pub struct Child<T> {
 	/// Is this child has whitespace that is considered significant, meaning
 	/// user has inserted it to split the value into multiple lines.
 	pub triggers_multiline: bool,
+}
+
+impl<T> Child<T> {
+	/// Is there a `//` or `#` comment on the line of this child, after it
+	pub fn has_inline_line_comment(&self) -> bool {
+		self.inline_trivia.iter().any(|t| {
+			t.as_ref().is_ok_and(|t| {
+				matches!(
+					t.kind(),
+					TriviaKind::SingleLineHashComment | TriviaKind::SingleLineSlashComment
+				)
+			})
+		})
+	}
 }
 
 pub struct EndingComments {
